@@ -4,6 +4,8 @@ Every operation is executed on the real objects immediately (collecting a canoni
 appended to the op list for the model; `finish()` pipes the ops to the driver and diffs line by line."""
 from __future__ import annotations
 
+import os
+
 import enum
 import math
 import re
@@ -88,8 +90,36 @@ def show_sent(item) -> str:
     return f"get:{core.hx(item[1])}:{core.hx(item[2])}"
 
 
+class _Listener:
+    """a user object whose bound method is the callback (several instances of ONE class register their own method)"""
+    def __init__(self, f):
+        self._f = f
+
+    def on_update(self, fn, value):
+        self._f(fn, value)
+
+
+class _CallableObj:
+    def __init__(self, f):
+        self._f = f
+
+    def __call__(self, fn, value):
+        self._f(fn, value)
+
+
+def _shared_target(f, fn, value):
+    f(fn, value)
+
+
+CB_KINDS = ("function", "bound", "partial", "callable")
+
+
 class L3Session:
+    _sessions = 0        # the kind of callable handed to register_update_callback rotates with the session number (no PRNG draw)
+
     def __init__(self):
+        L3Session._sessions += 1
+        self.cb_kind = os.environ.get("VERIF_CB_KIND") or CB_KINDS[L3Session._sessions % len(CB_KINDS)]
         from ynca.connection import YncaProtocolStatus
 
         self.Status = YncaProtocolStatus
@@ -140,8 +170,21 @@ class L3Session:
             def f(fn, value, _k=key):
                 self.calls.append((_k[0], _k[1], fn, value))
                 self.seen(_k[0], fn, value)
-            self.cbs[key] = f
-        return self.cbs[key]
+            self.cbs[key] = self.wrap(f)
+        h = self.cbs[key]
+        # a bound method is a fresh (equal) object on every attribute access, as in user code: `x.register(self.on_update)` … `x.unregister(self.on_update)`
+        return h.on_update if isinstance(h, _Listener) else h
+
+    def wrap(self, f):
+        """the callable of this session's kind that stands for `f`; `_cb` resolves it"""
+        if self.cb_kind == "bound":
+            return _Listener(f)
+        if self.cb_kind == "partial":
+            import functools
+            return functools.partial(_shared_target, f)
+        if self.cb_kind == "callable":
+            return _CallableObj(f)
+        return f
 
     def reg(self, idx, cbid):
         self.objs[idx].register_update_callback(self._cb(idx, cbid))
